@@ -1,3 +1,4 @@
+import F3.Proofs.NodeGen2
 import F3.Proofs.WalRead
 import F3.Gen.Wal
 import F3.Proofs.WalCbor
@@ -390,4 +391,27 @@ example : walCfg.codec = walCodec ∧ (step walCfg (run walCfg init [.open]) (.a
 
 end CborRecords
 
+end F3.Props.C11
+
+/-! # Regenerated, second set (appended): ties to `tools/go2lean/targets.d/*2.json` -/
+namespace F3.Props.C11
+section Regenerated2
+/-! ## Regenerated (2): which files `Purge` deletes (`internal/writeaheadlog/wal.go`)
+
+Proved in `F3/Proofs/NodeGen2.lean` against `F3/Gen/Wal2.lean` (`targets.d/Wal2.json`). -/
+
+/-- the closed files kept and the names deleted by the model's `purge k` are selected by the source's
+`c.maxEpoch < keepEpoch` (statement: `F3.Gen2Tie.purge_selection_is_regenerated`) -/
+theorem purge_selection_is_regenerated : type_of% @F3.Gen2Tie.purge_selection_is_regenerated :=
+  @F3.Gen2Tie.purge_selection_is_regenerated
+
+/-- `os.Remove` of the selected file is the only file-system call of `Purge` -/
+theorem purge_call_site :
+    F3.Gen.Wal2.callSites =
+      [("internal/writeaheadlog/wal.go", "Remove", ["filepath.Join(wal.path, c.logName)"])] :=
+  F3.Gen2Tie.purge_call_site
+
+example : F3.Gen.Wal2.purgeDeletes 3 4 = true ∧ F3.Gen.Wal2.purgeDeletes 4 4 = false := by decide
+
+end Regenerated2
 end F3.Props.C11
